@@ -313,6 +313,17 @@ func TestCheck(t *testing.T) {
 	r := mc.New(t, "C01")
 	defer r.Finish()
 	if r.Replay != nil {
+		var probe struct {
+			Family string `json:"family"`
+		}
+		r.DecodeReplay(&probe)
+		if probe.Family == "ws-tunnel" {
+			var wc WsCase
+			r.DecodeReplay(&wc)
+			k, d := executeWs(t, wc)
+			recordWs(r, wc, k, d)
+			return
+		}
 		var c Case
 		r.DecodeReplay(&c)
 		var kind, detail string
@@ -344,5 +355,25 @@ func TestCheck(t *testing.T) {
 		r.Progress(idx + 1)
 	}
 	udpCases(r, len(all))
+	// websocket tunnel reader shapes, two tunnels in one process
+	ws := wsCases(r.Thorough())
+	base := len(all) + 1000
+	for i, wc := range ws {
+		idx := base + i
+		if !r.Mine(idx) {
+			continue
+		}
+		if r.OverBudget() {
+			r.Cap(fmt.Sprintf("time budget reached at ws-tunnel case %d of %d", i, len(ws)))
+			break
+		}
+		var k, d string
+		r.Guard(idx, 30*time.Second, "hang|ws-tunnel", wc.String(), wc, func() { k, d = executeWs(t, wc) })
+		recordWs(r, wc, k, d)
+		if i%2003 == 0 {
+			r.Sample(map[string]any{"case": wc.String(), "outcome": k})
+		}
+	}
 	r.Note("cases_total", len(all))
+	r.Note("ws_tunnel_cases", len(ws))
 }
